@@ -11,6 +11,7 @@ use serde::Serialize;
 use serde_json::Value;
 use zksync_consensus_roles::validator;
 
+pub mod bft;
 pub mod log;
 
 /// One failure = one potential VIOLATION (or KNOWN-FINDING if `key` is listed in known_findings.txt).
